@@ -52,10 +52,11 @@ pub fn structured_registry(r: &mut Rng, n: u32) -> PortableRegistry {
 
 pub fn retain(r: &mut Rng, n: u64, thorough: bool, out: &mut Out) {
     for case in 0..n {
-        let size = match r.below(10) {
-            0 => r.below(2),
-            1..=4 => r.range(2, 8),
-            5..=8 => r.range(8, 30),
+        let size = match if gen::small() { 0 } else { 1 + r.below(10) } {
+            0 => r.range(1, 5),
+            1 => r.below(2),
+            2..=5 => r.range(2, 8),
+            6..=9 => r.range(8, 30),
             _ => r.range(30, if thorough { 64 } else { 40 }),
         } as u32;
         let reg = if r.chance(1, 3) { gen::wf_registry(r, size) } else { structured_registry(r, size) };
